@@ -91,10 +91,12 @@ KT5 = dict(DT=1, OT=2, RT=1, TT=5)
 # (cfg, adapter params, keep every k-th behaviour)
 EDGES = {
     "quick": [("EX_edges_q1.cfg", K4, 3), ("EX_edges_ports.cfg", K3, 5), ("EX_edges_raw.cfg", dict(K3, int_clock=False), 3),
-              ("EX_edges_raw0.cfg", dict(K3, int_clock=False, alias=False), 1)],
+              ("EX_edges_raw0.cfg", dict(K3, int_clock=False, alias=False), 1),
+              ("EX_edges_q4.cfg", K3, 50)],          # windows of two offers, sampled
     "thorough": [("EX_edges_q1.cfg", K4, 1), ("EX_edges_ports.cfg", K3, 1), ("EX_edges_raw.cfg", dict(K3, int_clock=False), 1),
                  ("EX_edges_raw0.cfg", dict(K3, int_clock=False, alias=False), 1),
-                 ("EX_edges_K4.cfg", K4, 6), ("EX_edges_q2.cfg", K5, 8), ("EX_edges_q3.cfg", K412, 4)],
+                 ("EX_edges_K4.cfg", K4, 6), ("EX_edges_q2.cfg", K5, 8), ("EX_edges_q3.cfg", K412, 4),
+                 ("EX_edges_q4.cfg", K3, 4)],
 }
 # (cfg, adapter params, walks, depth)
 SIMS = {
